@@ -204,7 +204,8 @@ def check_pair(ctx, c, order=None):
         if abs(a2 - np.sqrt(c['dist2'] / c['norm2_2'])) > 1e-12:
             bad.append('accuracy(dense)')
     # number operands
-    for num in (3, -2.5, 0):
+    # ordinary numbers and the magnitude ladder around the constant constructor's 1e-16 window
+    for num in (3, -2.5, 0, 1e-17, -3e-20, 1e-16, 2e-16, 1e-300, -7e17):
         for name, fn, ref in (('add', teneva.add, f('full1') + num), ('sub', teneva.sub, f('full1') - num),
                               ('mul', teneva.mul, f('full1') * num)):
             Z = fn(Y1, num)
@@ -309,6 +310,7 @@ def run(ctx):
         ctx.case(key=('all', c['cores']), nontrivial=True, sample={'cores': c['cores'], 'full': c['full'], 'sum': c['sum']} if j < 2 else None)
     res = tlc.run('Algebra', cfg='Algebra_pair.cfg', workers=16, timeout=1800)
     ctx.add_tlc(res, 'palette pairs: structured operators = dense operators; all binary routines')
+    check_profiles(ctx, res.json, quick)
     for j, c in enumerate(res.json):
         check_pair(ctx, c, order=['C', 'F', None][j % 3])
         if c['cores1'] == c['cores2'] or j % 7 == 0:
@@ -333,6 +335,76 @@ def run(ctx):
     if not seen:
         raise tlc.TlcError('no program emitted')
     check_huge(ctx, quick)
+
+
+PROFILES = ('tiny-interior', 'tiny-last', 'tiny-first', 'lead-big-tiny', 'alternating', 'uniform-big')
+
+
+def shift_profile(rng, d, kind):
+    """per-core power-of-two exponents; at most one core below core_stab's documented threshold (entries < 1e-50, i.e.
+    Gram entries < 1e-100), and no core after it scaled down, so that the documented behaviour is exact"""
+    s = [0] * d
+    if kind == 'tiny-interior':
+        s[int(rng.integers(1, max(2, d - 1)))] = -int(rng.choice([200, 300, 450]))
+    elif kind == 'tiny-last':
+        s[d - 1] = -int(rng.choice([170, 250, 400]))
+    elif kind == 'tiny-first':
+        s[0] = -int(rng.choice([200, 450]))
+    elif kind == 'lead-big-tiny':
+        k = int(rng.integers(1, d))
+        for j in range(k):
+            s[j] = int(rng.choice([3, 30, 90]))
+        s[k] = -int(rng.choice([200, 400]))
+    elif kind == 'alternating':
+        s = [(120 if j % 2 == 0 else -120) for j in range(d)]
+    elif kind == 'uniform-big':
+        s = [int(rng.choice([100, 150]))] * d
+    return s
+
+
+def check_profiles(ctx, pairs, quick):
+    """Frobenius norm / scalar product / relative accuracy on integer tensors whose cores carry exact power-of-two
+    scales (the dense tensor need not be representable; every expected value is exact through the exponents)."""
+    rng = np.random.default_rng(ctx.seed + 77)
+    sel = [pairs[j] for j in rng.permutation(len(pairs))[:(120 if quick else 1200)]]
+    for t, c in enumerate(sel):
+        n = c['n']
+        d = len(n)
+        A, B = cores_of(c['cores1']), cores_of(c['cores2'])
+        a, b = F.dense(A), F.dense(B)
+        N1, N2, dot, dist2 = float(np.sum(a * a)), float(np.sum(b * b)), float(np.sum(a * b)), float(np.sum((a - b) ** 2))
+        kind = PROFILES[t % len(PROFILES)]
+        s = shift_profile(rng, d, kind)
+        S = int(sum(s))
+        As = [G * 2.0 ** e_ for G, e_ in zip(A, s)]
+        Bs = [G * 2.0 ** e_ for G, e_ in zip(B, s)]
+        case = {'cores1': c['cores1'], 'cores2': c['cores2'], 'shifts': s}
+        ctx.case(key=('profile', c['cores1'], c['cores2'], s), nontrivial=True, sample={'profile': kind, 'shifts': s, 'n': n} if t < 2 else None)
+
+        def lg(v, p):
+            return float(np.log2(v)) + p if v > 0 else None
+        v, p = teneva.norm(As, use_stab=True)
+        if N1 > 0:
+            ctx.check(v > 0 and abs(lg(v, p) - (0.5 * np.log2(N1) + S)) <= 1e-9, 'algebra:norm-stab',
+                      'norm(use_stab=True) = %r * 2^%r, exact sqrt(%d) * 2^%d (profile %s %s)' % (v, p, N1, S, kind, s), case=case)
+        else:
+            ctx.check(v == 0, 'algebra:norm-stab', 'norm(use_stab=True) of a zero tensor = %r * 2^%r' % (v, p), case=case)
+        v, p = teneva.mul_scalar(As, Bs, use_stab=True)
+        if dot != 0:
+            ctx.check(v * dot > 0 and abs(lg(abs(v), p) - (np.log2(abs(dot)) + 2 * S)) <= 1e-9, 'algebra:mul_scalar-stab',
+                      'mul_scalar(use_stab=True) = %r * 2^%r, exact %d * 2^%d (profile %s %s)' % (v, p, dot, 2 * S, kind, s), case=case)
+        else:
+            ctx.check(v == 0, 'algebra:mul_scalar-stab', 'mul_scalar(use_stab=True) = %r * 2^%r, exact 0' % (v, p), case=case)
+        # accuracy() answers with its sentinel -1 when the mantissa of the reference norm is below 1e-100, which happens
+        # when a core below core_stab's threshold (passed through unscaled) is smaller than 2^-332: outside the family
+        acc_defined = min(s) >= -320
+        if N2 > 0 and dist2 > 0 and acc_defined:
+            acc = teneva.accuracy(As, Bs)
+            ref = np.sqrt(dist2 / N2)
+            ctx.check(abs(acc - ref) <= 1e-7 * ref, 'algebra:accuracy-scaled', 'accuracy on scaled cores = %r, exact %r (profile %s %s)' % (acc, ref, kind, s), case=case)
+        if N1 > 0 and acc_defined:
+            acc = teneva.accuracy(teneva.mul(As, 3.), As)
+            ctx.check(abs(acc - 2.) <= 1e-7, 'algebra:accuracy-scaled', 'accuracy(3 Y, Y) = %r, exact 2 (profile %s %s)' % (acc, kind, s), case=case)
 
 
 def check_huge(ctx, quick):
